@@ -16,6 +16,9 @@ class Unsupported(Exception):
 
 def dump_mir(crate, workdir):
     """Regenerates the MIR dump of /repo/<crate> (lib target) from the current working tree."""
+    if REPO != "/repo":
+        import hashlib
+        workdir = workdir + "-alt" + hashlib.sha1(REPO.encode()).hexdigest()[:8]
     os.makedirs(workdir, exist_ok=True)
     out = os.path.join(workdir, crate + ".mir")
     env = dict(os.environ)
